@@ -161,3 +161,17 @@ PROPS["C11"] = {
 PROPS["C09"]["components"].append(Sched("trans", 3000, 150000, exhaustive_limit=3000))
 PROPS["C09"]["rule"] += " trans: 2-4 threads among OpenCircuit / CloseCircuit / failing call (opener says open) / succeeding probe (closer admits and says close) race from a closed or open circuit under the cooperative scheduler; quiescent monitor: alternation and IsOpen = last notification."
 PROPS["C09"]["trusted_base"] = TB_CIRCUIT + TB_SCHED
+
+PROPS["C17"] = {
+    "components": [Seq("manager", 1500, 60000)],
+    "rule": "manager: histories of CreateCircuit (0-3 explicit config layers each setting a random subset of 8 settings) / GetCircuit / AllCircuits / stat-binding queries over 4 names with duplicates, under 0-3 default constructors plus optionally a rolling.StatFactory; "
+            "non-trivial = default constructors present or a multi-layer create; distinct by FNV hash",
+    "trusted_base": TB_COMMON + ["circuit handles identified by pointer identity; settings read back through Circuit.Config()"],
+    "assumptions": ["sequential histories; concurrent creates are covered by the schedule harness where built"],
+}
+
+PROPS["C16"]["components"].append(Sched("tc", 3000, 150000, exhaustive_limit=3000))
+PROPS["C16"]["rule"] += " tc (schedules): 2-4 concurrent Check callers with timestamps inside one sleep period (bound: at most max(1,budget) successes) or all before nextOpen (bound: none), a timer thread firing armed callbacks at arbitrary moments, optionally a racing SleepStart; every atomic and lock operation is a scheduling point."
+PROPS["C16"]["trusted_base"] = PROPS["C16"]["trusted_base"] + TB_SCHED
+PROPS["C03"]["components"].append(Sched("tc", 1500, 60000, label="sched-tc-gate"))
+PROPS["C03"]["trusted_base"] = PROPS["C03"]["trusted_base"] + TB_SCHED
